@@ -694,6 +694,13 @@ class AxisInterp:
             if all(v.k in ('const', 'axis') and (v.k != 'axis' or v.c)
                    for v in vals):
                 return vals
+            # a literal sequence of literal tuples: (('observation',
+            # 'csr'), ('sample', 'csc'))
+            if vals and all(isinstance(e, (ast.Tuple, ast.List))
+                            for e in it.elts):
+                rows = [[self.ev(x, env) for x in e.elts] for e in it.elts]
+                if len({len(r) for r in rows}) == 1:
+                    return [V('tuple', elts=tuple(r)) for r in rows]
             return None
         if isinstance(it, ast.Name):
             v = env.get(it.id)
@@ -1078,7 +1085,10 @@ class AxisInterp:
                          c='shape')
             if attr in ('indices', 'indptr') and base.own is not None and \
                     base.c != 'dense':
-                if base.maj is None:
+                if base.maj == '?':
+                    self.sink('MAJOR', e, 'raw-%s' % attr, 'unknown',
+                              'layout fixed by asformat(<unresolved>)')
+                elif base.maj is None:
                     self.sink('MAJOR', e, 'raw-%s' % attr, 'bad',
                               'the compressed-storage array %s of a table\'s '
                               'matrix is read without fixing its layout '
@@ -2014,7 +2024,7 @@ class AxisInterp:
             return recv.with_(maj=S if not recv.flip else O)
         if meth == 'asformat' and e.args:
             v = self.ev(e.args[0], env)
-            maj = {'csr': O, 'csc': S}.get(v.c) if v.k == 'const' else None
+            maj = {'csr': O, 'csc': S}.get(v.c) if v.k == 'const' else '?'
             return recv.with_(maj=maj)
         if meth in ('tocoo', 'copy', 'astype', 'todok', 'tolil'):
             return recv.with_(fresh=True)
@@ -2254,7 +2264,7 @@ class AxisInterp:
             ax = axn.ax if axn is not None and axn.k == 'axisnum' else None
             arr = b.get('arr', TOP)
             parts = {k: b[k] for k in ('ids', 'metadata') if k in b}
-            if ax is None or arr.k != 'matrix' or arr.maj is None or any(
+            if ax is None or arr.k != 'matrix' or arr.maj in (None, '?') or any(
                     v.ax is None and v.k != 'none' for v in parts.values()):
                 self.sink('KERNEL', e, '_transform', 'unknown',
                           'participants unresolved')
@@ -2275,7 +2285,7 @@ class AxisInterp:
             arr = args[0] if args else TOP
             p = self.fixed.get('axis')
             pax = AXNAME.get(p) if isinstance(p, str) else None
-            if arr.k != 'matrix' or arr.maj is None or pax is None:
+            if arr.k != 'matrix' or arr.maj in (None, '?') or pax is None:
                 self.sink('KERNEL', e, 'subsample', 'unknown',
                           'matrix view or axis unresolved')
             else:
